@@ -364,9 +364,10 @@ def rule_int_vars(ctx):
         names_of(("proj", TERM, (("Term::BinaryOperation", "rhs"),))): {("arm", "Term::BinaryOperation{}")},
         names_of(("fieldof", CMP, "lhs")): {("equal-interval",)},
     }
-    for src, cond in ref.items():
+    labels = ["unary-operand", "binary-left-operand", "binary-right-operand", "left-side-of-equal-interval"]
+    for (src, cond), label in zip(ref.items(), labels):
         ok = found.get(src) == cond
-        ctx.add("INTVARS", "source:%s" % rn(src[2][0][2][0]), ok, ctx.site(b),
+        ctx.add("INTVARS", "source:%s" % label, ok, ctx.site(b),
                 "int_variables adds the variables of %s under the condition %s (found: %s)" % (rn(src[2][0][2][0]), sorted(cond), sorted(found.get(src, ["never"]), key=repr)))
     extra = set(found) - set(ref)
     ctx.add("INTVARS", "no-other-source", not extra, ctx.site(b), "no other variables are made integer-sorted: %s" % [rn(x) for x in extra])
